@@ -498,6 +498,43 @@ def poison_rules(facts, rep):
     return ok
 
 
+def dropflush_rules(facts, rep, reach):
+    """a buffering adapter (io::BufWriter / LineWriter) flushes in its destructor and *discards* the error: wherever the crate wraps a
+    sink in one, every normal exit of that function must have called flush() / into_inner() on it (whose Result C11-DROPRES then
+    tracks).  The pinned tree builds none; the rule bites when one is introduced."""
+    from engine.paths import paths as _paths, outcome as _outcome, PathExplosion
+    rule = "C11-DROPFLUSH"
+    ok = True
+    n = 0
+    for f in facts.fns:
+        if f.path not in reach:
+            continue
+        mk = [(bi, t) for bi, t in f.calls() if callee_matches(t, r"io::(buffered::)?(bufwriter::)?BufWriter::<[^>]*>::(new|with_capacity)$|io::(buffered::)?(linewriter::)?LineWriter::<[^>]*>::(new|with_capacity)$")]
+        if not mk:
+            continue
+        n += len(mk)
+        try:
+            ps = _paths(f, max_paths=20000)
+        except PathExplosion:
+            ps = None
+        bad = ps is None
+        if ps is not None:
+            for p in ps:
+                names = [e[1] for e in p["effects"]]
+                idx = [i for i, nm in enumerate(names) if re.search(r"(BufWriter|LineWriter)::<[^>]*>::(new|with_capacity)$", nm)]
+                if not idx or p["end"] != "return" or _outcome(p)[0] in ("Err", "ErrProp"):
+                    continue
+                after = names[idx[0] + 1:]
+                if not any(re.search(r"io::Write::flush$|BufWriter::<[^>]*>::into_inner$|LineWriter::<[^>]*>::into_inner$", nm) for nm in after):
+                    bad = True
+        ok &= rep.check(not bad, rule, "flushed-before-drop@%s" % f.path.split("::")[-1], where(f, mk[0][1]["span"]),
+                        "the buffered writer is flushed (result checked) on every successful exit",
+                        "%s wraps the sink in a buffering writer and can return successfully without flush()/into_inner(): a write error at the "
+                        "implicit flush in Drop is discarded and the call reports success" % f.path.split("::")[-1])
+    rep.ok(rule, "census", "", "%d buffering adapter(s) constructed in reader/writer-reachable code" % n, trivial=True)
+    return ok
+
+
 def run(ctx, rep):
     facts = ctx.facts
     rep.configs.append("default")
@@ -515,6 +552,7 @@ def run(ctx, rep):
     errpanic_rules(facts, rep, reach)
     pos_rules(facts, rep, reach)
     poison_rules(facts, rep)
+    dropflush_rules(facts, rep, reach)
     # "no panic, then or on any later call including finish": the writer's typestate invariants are what keep its assertions
     # (get_plain / unwrap / files.last().unwrap()) unreachable after a failed call
     from rules.C12 import ts_rules
